@@ -210,7 +210,7 @@ Definition set_by_oper (s : mstate) (name : value) : option (list string) :=
 (* `x or Operand.NULL` *)
 Definition or_null (o : option string) : value :=
   match o with
-  | Some n => if String.eqb n "" then VOperand OD_NULL else VStr n
+  | Some n => VStr n
   | None => VOperand OD_NULL
   end.
 Definition param_to_value (s : mstate) (p : param) : res value :=
